@@ -76,6 +76,12 @@ Theorem C21_replicas_inside_shard : forall (nodes : list nat) sub_eps rf v a,
 Proof. exact answers_inside_shard. Qed.
 Print Assumptions C21_replicas_inside_shard.
 
+(* Tie T: the comparison handed to sort.Search in getTenantShard, read from the
+   source, is "section hash >= random position", as in the model's ring_index. *)
+Theorem C21_search_predicate_from_source : forall h pos, shard_search_pred h pos = (pos <=? h)%Z.
+Proof. exact shard_search_pred_tie. Qed.
+Print Assumptions C21_search_predicate_from_source.
+
 (* Non-vacuity: two zones with two nodes each, shard size 2 (one per zone). *)
 Example C21_nonvacuous :
   let eps := [(0, [10; 50]); (1, [20; 60]); (0, [30; 70]); (1, [40; 80])]%Z in
